@@ -1,10 +1,13 @@
 (* Eco/Nuget/Range.v — model of pkg/ecosystem/nuget/range.go (definitions only).
    Bracket intervals, comma lists of comparator constraints, bare version = minimum. *)
 From Verif.Base Require Import Bytes GoNum Ord.
+From Verif.Gen Require Operators.
 From Verif.Eco Require Import RangeCore.
 
 (* operators := []string{">=", "<=", "!=", ">", "<", "="} in parseSingleConstraint *)
-Definition nuget_ops : list bytes := [$">="; $"<="; $"!="; $">"; $"<"; $"="].
+(* the list is generated from the Go source on every run (tools/gen -> Gen/Operators.v) *)
+Definition nuget_ops : list bytes :=
+  Eval cbv delta [Verif.Gen.Operators.nuget_ops] in Verif.Gen.Operators.nuget_ops.
 
 Definition starts_c (c : ascii) (s : bytes) : bool :=
   match s with x :: _ => ceqb c x | [] => false end.
